@@ -325,7 +325,8 @@ impl<'a> Ev<'a> {
                 RuleType::Normal | RuleType::Atomic => (!s.la && outer != Mode::A, Mode::A),
                 RuleType::Silent => (false, Mode::A),
                 RuleType::CompoundAtomic => (!s.la, Mode::C),
-                RuleType::NonAtomic => panic!("model: `!` WHITESPACE/COMMENT is excluded (M8)"),
+                // `!`: the rule itself runs non-atomically (its pair appears even under an atomic caller), its body atomically
+                RuleType::NonAtomic => (!s.la, Mode::A),
             }
         } else {
             match ty {
@@ -339,7 +340,7 @@ impl<'a> Ev<'a> {
         let reportable = match (special, ty) {
             (_, RuleType::Silent) => false,
             (_, RuleType::CompoundAtomic) => true,
-            (false, RuleType::NonAtomic) => true,
+            (_, RuleType::NonAtomic) => true,
             _ => outer != Mode::A,
         };
         let open = (self.acc_p, self.entries.len());
